@@ -117,7 +117,7 @@ def run(facts, rep, tier):
     gates = reg.gates()
     n4 = 0
     for bi, t, e2 in reg.effect_sites():
-        st = [x for x in e2 if x[0] in ("table", "btree") or (x[0] == "field" and x[1].split("::")[-1] in ("Plane", "Planes", "AppCounters"))]
+        st = reg.state_effects(e2)
         if not st:
             continue
         for g in gates:
